@@ -393,6 +393,9 @@ class Check:
                 print(f"    UNDECIDED {o.key} — {o.detail}")
         for n in self.notes:
             print(f"    NOTE {n}")
+        if os.environ.get("VERIF_LIST"):
+            for o in self.obs:
+                print(f"    {o.status:9s} {o.key} — {o.detail[:200]}")
         if write_evidence:
             self._write_evidence(n_ok, n_und, viol, known_hit, new_viol, counts)
         return 1 if new_viol else 0
@@ -431,6 +434,7 @@ class Check:
                 "instances_per_rule": counts,
                 "instance_floors": self.floors,
                 "samples": samples,
+                "obligation_list": [{"key": o.key, "status": o.status, "loc": o.loc, "detail": o.detail[:160]} for o in self.obs],
                 "analysed": {
                     "source_root": str(self.repo.root),
                     "files_parsed": len(self.repo.modules),
